@@ -1077,6 +1077,30 @@ fn gen_case(rt: &Runtime<NoCtx>, drv: &mut Driver, seed: u64, index: u64, rep: &
     } else {
         (what, src, pairs)
     };
+    // … and the built-in methods of String and List: argument types, argument
+    // counts, methods that do not exist
+    let (what, src, pairs) = if p.chance(1, 6) {
+        let (v3, vt3) = value(&mut p, "String", r1);
+        let (v4, vt4) = value(&mut p, "u64", r2);
+        match p.below(10) {
+            0 => ("method-string-contains", format!("fn main(s: String) {{ let c: bool = s.contains({v3}); }}\n"), format!("{vt3}:str")),
+            1 => ("method-string-repeat", format!("fn main(s: String) {{ let c: String = s.repeat({v4}); }}\n"), format!("{vt4}:u64")),
+            2 => (
+                "method-string-replace",
+                format!("fn main(s: String) {{ let c: String = s.replace({v3}, {v3}); }}\n"),
+                format!("{vt3}:str"),
+            ),
+            3 => ("method-string-split-result", format!("fn main(s: String) {{ let c: List[{u}] = s.split(\"x\"); }}\n"), format!("str:{}", lean_ty(u))),
+            4 => ("method-extra-argument", format!("fn main(s: String) {{ let c = s.trim({v3}); }}\n"), "never".to_string()),
+            5 => ("method-missing-argument", "fn main(s: String) { let c = s.contains(); }\n".to_string(), "never".to_string()),
+            6 => ("method-unknown", format!("fn main(l: List[{t1}]) {{ l.no_such_method(); }}\n"), "never".to_string()),
+            7 => ("method-on-wrong-receiver", format!("fn main(x: {t1}) {{ let n = x.len(); }}\n"), if t1 == "String" { "never".to_string() } else { "never".to_string() }),
+            8 => ("method-list-len-result", format!("fn main(l: List[{t1}]) {{ let n: {u} = l.len(); }}\n"), format!("u64:{}", lean_ty(u))),
+            _ => ("method-list-index", format!("fn main(l: List[{t1}]) {{ let n: Option[u64] = l.index({v1}); }}\n"), format!("{vt1}:{}", lean_ty(t1))),
+        }
+    } else {
+        (what, src, pairs)
+    };
     let request = format!("c07 compat {pairs}");
     let answer = drv.ask(&request);
     // the whole pipeline for the never forms: what the type checker lets through here panics later
